@@ -1,0 +1,5 @@
+//go:build !verif
+
+package group_mutex
+
+func verifHook(string, string) {}
